@@ -117,7 +117,9 @@ def search_histories(chk, r, n):
               # a cross section listed before structure functions at the same (x, Q2, y), one of its points twice
               dict(sv={}, alias=False, xs_dup=True), dict(sv=dict(FactScaleVar=False), alias=False, xs_dup=True),
               # one a_s^2 history (the (2,1,1) / (2,2,0) factorisation sectors only exist there)
-              dict(sv={}, alias=False, nnlo=True)]
+              dict(sv={}, alias=False, nnlo=True),
+              # distinct points that agree to nine significant digits are distinct requests
+              dict(sv={}, alias=False, near=True), dict(sv=dict(FactScaleVar=False), alias=False, near=True, tmc=1)]
     for i_case in range(n + len(forced)):
         tmc = r.choice([0, 0, 1, 3])
         process = r.choice(["NC", "CC", "EM"])
@@ -126,7 +128,7 @@ def search_histories(chk, r, n):
         fl = r.choice(["total", "light"])
         force = forced[i_case] if i_case < len(forced) else None
         if force is not None:
-            tmc, pto, fl = 0, 1, "total"
+            tmc, pto, fl = force.get("tmc", 0), 1 if not force.get("tmc") else 0, "total"
             if force.get("multi_nf"):
                 kinds, process = ["F2", "FL"], "NC"
             if force.get("xs_dup"):
@@ -144,6 +146,8 @@ def search_histories(chk, r, n):
         pts = [copy.deepcopy(p) for p in r.sample(pool, r.choice([2, 3, 5]))]
         if force is not None and force.get("nnlo"):
             pts = [dict(x=0.3, Q2=10.0), dict(x=0.1, Q2=10.0)]
+        if force is not None and force.get("near"):
+            pts = [dict(x=0.1, Q2=10.0), dict(x=0.1000000003, Q2=10.0), dict(x=0.3, Q2=40.00000004), dict(x=0.3, Q2=40.0), dict(x=0.1 * (1 + 2 ** -50), Q2=10.0)]
         if force is not None and force.get("multi_nf"):
             # points on both sides of the charm and bottom matching scales, scale variations on
             pts = [dict(x=0.3, Q2=0.7), dict(x=0.1, Q2=10.0), dict(x=0.3, Q2=40.0), dict(x=0.55, Q2=40.0)]
